@@ -539,6 +539,11 @@ func init() {
 		"github.com/gnolang/gno/tm2/pkg/amino.NewCodec": func(i *interp, caller *frame, fn *ssa.Function, args []value) value {
 			return (*value)(nil)
 		},
+		// codec set-up calls made from package initialisers (the codec itself is never executed)
+		"(*github.com/gnolang/gno/tm2/pkg/amino.Codec).Seal":            func(i *interp, caller *frame, fn *ssa.Function, args []value) value { return args[0] },
+		"(*github.com/gnolang/gno/tm2/pkg/amino.Codec).RegisterPackage": noop,
+		"(*github.com/gnolang/gno/tm2/pkg/amino.Codec).RegisterTypeFrom": noop,
+		"(*github.com/gnolang/gno/tm2/pkg/amino.Codec).Autoseal":        func(i *interp, caller *frame, fn *ssa.Function, args []value) value { return args[0] },
 	}
 	addAtomics()
 	addBig()
@@ -568,11 +573,39 @@ func (i *interp) bytesEq(a, b []value) *term.T {
 	if len(a) != len(b) {
 		return c.False()
 	}
+	// both sides byte slices of one wider term each (digests): compare the wide terms
+	if wa, wb := wholeOf(a), wholeOf(b); wa != nil && wb != nil && wa.W == wb.W {
+		return c.EqT(wa, wb)
+	}
 	r := c.True()
 	for k := range a {
 		r = c.AndB(r, c.EqT(a[k].(*term.T), b[k].(*term.T)))
 	}
 	return r
+}
+
+// wholeOf returns t when bs are exactly the bytes of t, most significant first.
+func wholeOf(bs []value) *term.T {
+	if len(bs) < 2 {
+		return nil
+	}
+	var base *term.T
+	for k, e := range bs {
+		x, ok := e.(*term.T)
+		if !ok || x.Op != term.Extract {
+			return nil
+		}
+		if k == 0 {
+			base = x.A[0]
+			if base.W != 8*len(bs) {
+				return nil
+			}
+		}
+		if x.A[0] != base || x.P1 != base.W-1-8*k || x.P2 != base.W-8-8*k {
+			return nil
+		}
+	}
+	return base
 }
 
 // cmp3 is the three-way comparison (-1, 0, +1) as a 64-bit term.
